@@ -24,7 +24,47 @@ def _body_nontrivial(line, verdict):
     return "413" in line or "500" in line or "dataerr=1" in line
 
 
+def _eng_nontrivial(line, verdict):
+    # at least one rule fired (so targets were selected, operators and actions ran)
+    return "; m=-" not in line and "CONFIGERR" not in line
+
+
+_ENG_RULE = ("eng: structured rule sets (1-6 rules + markers, chains up to 4 links, keyed/whole/count targets with "
+             "exclusions over ARGS*/REQUEST_HEADERS*/TX/MATCHED_*, 13 operators with literal and macro arguments, "
+             "transformation lists, multiMatch, setvar/ctl actions, all disruptive actions, skip/skipAfter, severity, tags) "
+             "rendered to SecLang for the real WAF and sent as JSON to the Lean model; requests with duplicate, mixed-case, "
+             "empty and binary names/values; API call sequences in and out of order; three engine modes. Compared: every "
+             "call's returned interruption, final interruption, MatchedRules (ids in order, match data as multisets), the TX "
+             "collection, HIGHEST_SEVERITY, error-callback ids. Non-trivial = some rule fired; distinct = distinct line. ")
+_ENG_MODELLED = ("modelled: RuleGroup.Eval, Rule.doEvaluate, GetField and the Map/Named/Concat collections, matchVariable, "
+                 "MatchRule, Interrupt, Allow, the Process* guards, macro compile/expand, setvar, ctl rule/target removal, "
+                 "deny/drop/redirect/block/pass/allow/skip/skipAfter. Not modelled: regex keys, @rx, XML/JSON selectors, "
+                 "multiphase build, body processors (C03/C10), audit logging (C19).")
+_ENG_ASSUME = ["Go map iteration order is arbitrary: match data are compared as multisets and the generator only emits "
+               "order-dependent actions where the Go order is deterministic",
+               "lowercase/uppercase modelled on ASCII input only (cases outside are judged by the monitor alone)"]
+
+
+def _eng(profile, quick, thorough):
+    return {"name": "eng", "quick": quick, "thorough": thorough, "shards": 8, "arg": "profile=" + profile}
+
+
 PROPS = {
+    "C02": {
+        "engines": [_eng("api", 25000, 800000), _eng("", 10000, 300000)],
+        "nontrivial": _eng_nontrivial, "rule": _ENG_RULE + "Profile `api`: out-of-order/repeated calls, many disruptive rules.",
+        "modelled": _ENG_MODELLED, "assumptions": _ENG_ASSUME,
+        "open_statements": ["a logging-phase rule with a disruptive action can still replace Interruption() after the "
+                            "logging call (C02_final is stated for calls other than ProcessLogging; C02_logging_only_phase5 "
+                            "covers what ProcessLogging may evaluate)",
+                            "C02_first (the interruption is the one of the first completing disruptive rule) follows from "
+                            "C02_interrupted_phase_stops + the loop order but is not yet stated as one theorem"],
+    },
+    "C08": {
+        "engines": [_eng("flow", 25000, 800000), _eng("", 10000, 300000)],
+        "nontrivial": _eng_nontrivial, "rule": _ENG_RULE + "Profile `flow`: skip 1-3, skipAfter with present/absent/earlier markers, allow scopes, chains.",
+        "modelled": _ENG_MODELLED, "assumptions": _ENG_ASSUME, "open_statements": [],
+    },
     "C10": {
         "engines": [
             {"name": "body", "quick": 40000, "thorough": 1200000, "shards": 8},
